@@ -443,14 +443,9 @@ pub fn check_c18(ctx: &mut Ctx, input: &[u8]) {
             if let Some(tiles) = dec::tiling(b) {
                 for item in c.take(tiles.len() + 1) {
                     if let Err(e) = item {
-                        let ok = match &e {
-                            RtcpParseError::UnsupportedVersion(_) | RtcpParseError::PacketTypeMismatch { .. } => tiles.iter().any(|&(at, end)| {
-                                let t = &b[at..end];
-                                let own = if (200..=206).contains(&t[1]) { Some(t[1]) } else { None };
-                                truthful(&e, t, own).is_ok()
-                            }),
-                            _ => truthful(&e, b, None).is_ok(),
-                        };
+                        // the error must be exactly what the generic parser reports for one of the tiles
+                        // (which tile is C11's business); an error no tile produces describes none of them
+                        let ok = tiles.iter().any(|&(at, end)| Packet::parse(&b[at..end]).err().as_ref() == Some(&e));
                         out.push(("Compound::next", if ok { "tile" } else { "tile-untruthful" }, None, e, None));
                     }
                 }
